@@ -1,8 +1,521 @@
 package main
 
-// Contracts for the editing primitives of internal/core (K9 on core).
+import (
+	"fmt"
+	"go/token"
+	"os"
+	"strings"
+
+	"golang.org/x/tools/go/ssa"
+)
+
+// K9 on the editing code (C01.nonneg): contracts and state getters.
+
+// Contracts for the editing primitives of internal/core. Ensures of module
+// functions are themselves checked when the function is analysed.
 func coreContracts() map[string]*ZContract {
+	nonneg := func() *ZContract { return &ZContract{Ensures: []ZEnsure{{Cons: []ZC{le(zz, zr(0), 0)}}}} }
 	return map[string]*ZContract{
-		// (*Line).Len() == len(*l): ensured by the lemma below (special-cased in the engine through this contract)
+		"(*core.Cursor).Pos":                 nonneg(),
+		"(*core.Line).Len":                   nonneg(),
+		"(*core.Line).Lines":                 nonneg(),
+		"(*history.Sources).Len":             nonneg(),
+		"unicode/utf8.RuneCountInString":     nonneg(),
+		"unicode/utf8.RuneCount":             nonneg(),
+		"unicode/utf8.RuneLen":               {Ensures: []ZEnsure{{Cons: []ZC{le(zz, zr(0), 1)}}}}, // >= -1
+		"strutil.RealLength":                 nonneg(),
+		"github.com/rivo/uniseg.StringWidth": nonneg(),
+		// (*Line).checkPosRange clamps into [0, Len]; checkRange returns (bpos >= 0, epos >= -1) when valid
+		"(*core.Line).checkPosRange": nonneg(),
+		"(*core.Line).checkRange":    {Requires: []ZC{le(zz, zp(2), 1)}, Ensures: []ZEnsure{{Guard: 'T', GI: 2, Cons: []ZC{le(zz, zr(0), 0), le(zz, zr(1), 1)}}}},
+		"(*core.Line).Cut":           {Requires: []ZC{le(zz, zp(2), 1)}},
+		"(*core.Line).InsertBetween": {Requires: []ZC{le(zz, zp(2), 1)}},
+		// Selection.checkRange returns (bpos >= 0, epos >= -1) when valid; Selection.Pos returns values >= -1
+		"(*core.Selection).checkRange": {Ensures: []ZEnsure{{Cons: []ZC{le(zz, zr(0), 1), le(zz, zr(1), 1)}}, {Guard: 'T', GI: 2, Cons: []ZC{le(zz, zr(0), 0), le(zz, zr(1), 1)}}}},
+		"(*core.Line).SelectWord":      {Ensures: []ZEnsure{{Cons: []ZC{le(zz, zr(0), 0), le(zz, zr(1), 0)}}}},
+		"(*core.Line).SelectBlankWord": {Ensures: []ZEnsure{{Cons: []ZC{le(zz, zr(0), 0), le(zz, zr(1), 0)}}}},
+		"(*core.Selection).Pos":        {Ensures: []ZEnsure{{Cons: []ZC{le(zz, zr(0), 1), le(zz, zr(1), 1)}}}},
+		// tokenizers return (words, index of the word under the position >= 0, offset in it)
+		"type:core.Tokenizer":              {Ensures: []ZEnsure{{Cons: []ZC{le(zz, zr(1), 0)}}}},
+		"(*core.Line).Tokenize":            {Ensures: []ZEnsure{{Cons: []ZC{le(zz, zr(1), 0)}}}},
+		"(*core.Line).TokenizeSpace":       {Ensures: []ZEnsure{{Cons: []ZC{le(zz, zr(1), 0)}}}},
+		"(*core.Line).TokenizeBlock":       {Ensures: []ZEnsure{{Cons: []ZC{le(zz, zr(1), 0)}}}},
+		"(*core.Line).Tokenize$bound":      {Ensures: []ZEnsure{{Cons: []ZC{le(zz, zr(1), 0)}}}},
+		"(*core.Line).TokenizeSpace$bound": {Ensures: []ZEnsure{{Cons: []ZC{le(zz, zr(1), 0)}}}},
+		"(*core.Line).TokenizeBlock$bound": {Ensures: []ZEnsure{{Cons: []ZC{le(zz, zr(1), 0)}}}},
+		// standard library results
+		"unicode/utf8.DecodeRuneInString":     {Ensures: []ZEnsure{{Cons: []ZC{le(zz, zr(1), 0)}}}},
+		"unicode/utf8.DecodeRune":             {Ensures: []ZEnsure{{Cons: []ZC{le(zz, zr(1), 0)}}}},
+		"unicode/utf8.DecodeLastRuneInString": {Ensures: []ZEnsure{{Cons: []ZC{le(zz, zr(1), 0)}}}},
+		"(*os.File).Read":                     {Ensures: []ZEnsure{{Cons: []ZC{le(zz, zr(0), 0)}}}},
+		"invoke:io.Reader.Read":               {Ensures: []ZEnsure{{Cons: []ZC{le(zz, zr(0), 0)}}}},
+		"invoke:io.ReadCloser.Read":           {Ensures: []ZEnsure{{Cons: []ZC{le(zz, zr(0), 0)}}}},
+		"bytes.Index":                         {Ensures: []ZEnsure{{Cons: []ZC{le(zz, zr(0), 1)}}}},
+		"bytes.IndexByte":                     {Ensures: []ZEnsure{{Cons: []ZC{le(zz, zr(0), 1)}}}},
 	}
+}
+
+// A state getter returns a function of mutable editor state; two calls return
+// the same value when nothing that can change that state runs in between.
+type stateGetter struct {
+	// kill reports instructions after which the getter may return something else
+	kill func(p *Prog, in ssa.Instruction) bool
+}
+
+func cursorOrLineChange(p *Prog, in ssa.Instruction) bool {
+	// direct stores
+	if _, ok := isFieldStore(in, "core.Cursor", "pos"); ok {
+		return true
+	}
+	for _, w := range p.primitiveLineWritesIn(in.Parent()) {
+		if w == in {
+			return true
+		}
+	}
+	ci, ok := in.(ssa.CallInstruction)
+	if !ok {
+		return false
+	}
+	if _, isDefer := in.(*ssa.Defer); isDefer {
+		return false
+	}
+	if p.callMayReach(ci, p.writersExcept("core.Cursor", "pos", "(*core.Cursor).CheckAppend")) {
+		return true
+	}
+	return p.callMayReach(ci, p.lineWriters())
+}
+
+func lineChange(p *Prog, in ssa.Instruction) bool {
+	for _, w := range p.primitiveLineWritesIn(in.Parent()) {
+		if w == in {
+			return true
+		}
+	}
+	ci, ok := in.(ssa.CallInstruction)
+	if !ok {
+		return false
+	}
+	if _, isDefer := in.(*ssa.Defer); isDefer {
+		return false
+	}
+	return p.callMayReach(ci, p.lineWriters())
+}
+
+var stateGetters = map[string]stateGetter{
+	// Pos() clamps pos into [0, Len] and returns it: idempotent until pos or the line changes
+	"(*core.Cursor).Pos": {cursorOrLineChange},
+	"(*core.Line).Len":   {lineChange},
+}
+
+// fieldEnsures: after a call of the named normaliser, the integer field of its
+// receiver has the given lower bound until something else writes the field.
+// The clamp structure of these functions is checked by rule C06.api-clamp.
+type fieldEnsure struct {
+	tn, fld string
+	lb      int64
+	except  []string // idempotent normalisers whose stores do not count as writes
+}
+
+var fieldEnsures = map[string][]fieldEnsure{
+	"(*core.Cursor).CheckAppend":  {{"core.Cursor", "pos", 0, []string{"(*core.Cursor).CheckAppend"}}, {"core.Cursor", "mark", -1, []string{"(*core.Cursor).CheckAppend"}}},
+	"(*core.Cursor).CheckCommand": {{"core.Cursor", "pos", 0, []string{"(*core.Cursor).CheckAppend"}}},
+}
+
+// classInvariant: an integer field that every function leaves >= lb when it
+// returns (stores are proved, or followed by a normaliser of the same object
+// before the function returns). Loads of the field then have that lower bound
+// everywhere except downstream of a not yet normalised store in the same
+// function. The obligations that make this sound are rule C01.field-invariant.
+type classInvariant struct {
+	tn, fld     string
+	lb          int64
+	normalisers []string
+}
+
+var classInvariants = []classInvariant{
+	{"core.Cursor", "pos", 0, []string{"(*core.Cursor).CheckAppend", "(*core.Cursor).CheckCommand"}},
+}
+
+func (ci classInvariant) isNormaliser(in ssa.Instruction) bool {
+	c, ok := in.(*ssa.Call)
+	if !ok {
+		return false
+	}
+	for _, n := range ci.normalisers {
+		if calleeName(c) == n {
+			return true
+		}
+	}
+	return false
+}
+
+// hasDeferredNormaliser: a `defer normaliser()` that dominates in.
+func (ci classInvariant) deferredBefore(fn *ssa.Function, in ssa.Instruction) bool {
+	found := false
+	eachInstr(fn, func(x ssa.Instruction) {
+		d, ok := x.(*ssa.Defer)
+		if !ok {
+			return
+		}
+		for _, n := range ci.normalisers {
+			if calleeName(d) == n && instrDominates(x, in) {
+				found = true
+			}
+		}
+	})
+	return found
+}
+
+// classLoadBounds: loads that may assume the class invariant.
+func (z *zoneEngine) classLoadBounds(fn *ssa.Function, out map[*ssa.UnOp]int64) {
+	for _, ci := range classInvariants {
+		var stores []ssa.Instruction
+		eachInstr(fn, func(in ssa.Instruction) {
+			if _, is := isFieldStore(in, ci.tn, ci.fld); is {
+				stores = append(stores, in)
+			}
+		})
+		eachInstr(fn, func(in ssa.Instruction) {
+			ld, ok := in.(*ssa.UnOp)
+			if !ok || ld.Op != token.MUL || !isIntType(ld.Type()) {
+				return
+			}
+			tn, fld, ok := fieldOf(ld.X)
+			if !ok || tn != ci.tn || fld != ci.fld {
+				return
+			}
+			for _, st := range stores {
+				if pathAvoiding(fn, st, func(x ssa.Instruction) bool { return x == ssa.Instruction(ld) }, ci.isNormaliser) != nil {
+					return // downstream of a store of this function that no normaliser has followed yet
+				}
+			}
+			if old, ok := out[ld]; !ok || ci.lb > old {
+				out[ld] = ci.lb
+			}
+		})
+	}
+}
+
+// stateLoadBounds: loads of a field that are dominated by a normaliser call on
+// the same receiver with no write of the field on any path in between.
+func (z *zoneEngine) stateLoadBounds(fn *ssa.Function) map[*ssa.UnOp]int64 {
+	out := map[*ssa.UnOp]int64{}
+	type src struct {
+		call *ssa.Call
+		fe   fieldEnsure
+	}
+	var srcs []src
+	eachInstr(fn, func(in ssa.Instruction) {
+		if c, ok := in.(*ssa.Call); ok && len(c.Call.Args) > 0 {
+			for _, fe := range fieldEnsures[calleeName(c)] {
+				srcs = append(srcs, src{c, fe})
+			}
+		}
+	})
+	z.classLoadBounds(fn, out)
+	if len(srcs) == 0 {
+		return out
+	}
+	eachInstr(fn, func(in ssa.Instruction) {
+		ld, ok := in.(*ssa.UnOp)
+		if !ok || ld.Op != token.MUL || !isIntType(ld.Type()) {
+			return
+		}
+		fa, ok := ld.X.(*ssa.FieldAddr)
+		if !ok {
+			return
+		}
+		tn, fld, ok := fieldOf(ld.X)
+		if !ok {
+			return
+		}
+		for _, sc := range srcs {
+			if sc.fe.tn != tn || sc.fe.fld != fld || !instrDominates(sc.call, ld) {
+				continue
+			}
+			if !(fa.X == sc.call.Call.Args[0] || sameMemValue(fa.X, sc.call.Call.Args[0])) {
+				continue
+			}
+			ws := z.p.writersExcept(tn, fld, sc.fe.except...)
+			isKill := func(x ssa.Instruction) bool {
+				if x == ssa.Instruction(sc.call) {
+					return false
+				}
+				if _, is := isFieldStore(x, tn, fld); is {
+					return true
+				}
+				ci, isC := x.(ssa.CallInstruction)
+				if !isC {
+					return false
+				}
+				if _, isDefer := x.(*ssa.Defer); isDefer {
+					return false
+				}
+				return z.p.callMayReach(ci, ws)
+			}
+			isSrc := func(x ssa.Instruction) bool { return x == ssa.Instruction(sc.call) }
+			killed := false
+			eachInstr(fn, func(k ssa.Instruction) {
+				if killed || !isKill(k) {
+					return
+				}
+				if pathAvoiding(fn, sc.call, func(x ssa.Instruction) bool { return x == k }, isSrc) == nil {
+					return
+				}
+				if pathAvoiding(fn, k, func(x ssa.Instruction) bool { return x == ssa.Instruction(ld) }, isSrc) != nil {
+					killed = true
+				}
+			})
+			if !killed {
+				if old, ok := out[ld]; !ok || sc.fe.lb > old {
+					out[ld] = sc.fe.lb
+				}
+			}
+		}
+	})
+	return out
+}
+
+// primitiveLineWritesIn: the primitive instructions of one function that can
+// change the length of a shared line (element stores and copy() cannot).
+func (p *Prog) primitiveLineWritesIn(f *ssa.Function) []ssa.Instruction {
+	if p.lineWritesBy == nil {
+		p.lineWritesBy = map[*ssa.Function][]ssa.Instruction{}
+		for _, w := range p.primitiveLineWrites() {
+			if w.Kind == "*line = …" {
+				p.lineWritesBy[w.Fn] = append(p.lineWritesBy[w.Fn], w.In)
+			}
+		}
+	}
+	return p.lineWritesBy[f]
+}
+
+// getterEqualities: for every call of a state getter, an earlier dominating
+// call of the same getter on the same receiver with no state change on any
+// path between them. Path-independent facts, computed once per function.
+func (z *zoneEngine) getterEqualities(fn *ssa.Function) map[*ssa.Call]*ssa.Call {
+	out := map[*ssa.Call]*ssa.Call{}
+	byGetter := map[string][]*ssa.Call{}
+	eachInstr(fn, func(in ssa.Instruction) {
+		if c, ok := in.(*ssa.Call); ok {
+			if _, is := stateGetters[calleeName(c)]; is && len(c.Call.Args) > 0 {
+				byGetter[calleeName(c)] = append(byGetter[calleeName(c)], c)
+			}
+		}
+	})
+	for name, calls := range byGetter {
+		if len(calls) < 2 {
+			continue
+		}
+		g := stateGetters[name]
+		var killers []ssa.Instruction
+		eachInstr(fn, func(in ssa.Instruction) {
+			if g.kill(z.p, in) {
+				killers = append(killers, in)
+				if os.Getenv("RLCHECK_DEBUG_KILL") != "" && strings.Contains(fnName(fn), os.Getenv("RLCHECK_DEBUG_KILL")) {
+					fmt.Fprintf(os.Stderr, "KILL %s in %s: %s\n", name, fnName(fn), in.String())
+				}
+			}
+		})
+		for _, c2 := range calls {
+			for _, c1 := range calls {
+				if c1 == c2 || !instrDominates(c1, c2) {
+					continue
+				}
+				if !sameMemValue(c1.Call.Args[0], c2.Call.Args[0]) {
+					continue
+				}
+				killed := false
+				for _, k := range killers {
+					if k == ssa.Instruction(c1) || k == ssa.Instruction(c2) {
+						continue
+					}
+					isK := func(in ssa.Instruction) bool { return in == k }
+					// a path c1 → … → k → … → c2 on which c1 is not executed again
+					// (c2 may be: in a loop k can follow one execution of c2 and precede the next)
+					isC1 := func(in ssa.Instruction) bool { return in == ssa.Instruction(c1) }
+					if pathAvoiding(fn, c1, isK, isC1) == nil {
+						continue
+					}
+					if pathAvoiding(fn, k, func(in ssa.Instruction) bool { return in == ssa.Instruction(c2) }, func(in ssa.Instruction) bool { return in == ssa.Instruction(c1) }) != nil {
+						killed = true
+						break
+					}
+				}
+				if !killed {
+					// prefer the earliest equal call (chains collapse through eq anyway)
+					if old, ok := out[c2]; !ok || instrDominates(c1, old) {
+						out[c2] = c1
+					}
+				}
+			}
+		}
+	}
+	return out
+}
+
+// ---------------------------------------------------------------------------
+// C01.nonneg — no index or slice bound of the editing code can be negative
+
+// reviewedNonneg: sites whose non-negativity rests on an invariant the zone
+// domain cannot express (heap relations between fields, arithmetic on products,
+// values returned by callbacks). One line of reason each; everything else must
+// be proved. Key = function:kind#ordinal as printed by the rule.
+var reviewedNonneg = map[string]string{
+	"(*core.Keys).extractCursorPos:index#0":         "rxRcvCursorPos.Match(keys) held just above, so FindAll with the same expression returns at least one match",
+	"(*core.Line).TokenizeBlock:index#0":            "line is the copy of *l taken at entry and Len() == 0 returned: cpos is clamped into [0, Len] and decremented only when it equals Len >= 1",
+	"(*core.Line).TokenizeBlock:index#1":            "same position as index#0",
+	"(*core.Selection).Pop:slice#0":                 "guarded by `bpos == -1 || epos == -1 → return` two lines above; Selection.Pos returns values >= -1 (the named results are spilled because of the deferred Reset, which the domain does not follow)",
+	"(*core.Selection).SelectAShellWord:index#1":    "cpos comes from AdjustSurroundQuotes / SelectBlankWord (>= -1, and both -1 selects the blank word instead): cpos+1 >= 0",
+	"(*core.Selection).SelectKeyword:slice#0":       "bpos, epos are the blank-word positions the only caller (viSelectKeyword / selection cycling) obtained from SelectBlankWord on the same line (>= 0)",
+	"(*core.Selection).checkRange:postcondition#6":  "bpos < 0 implies epos >= 0 here (both negative returned invalid above), so the swapped bpos is >= 0; the phi of the clamped epos hides it from the domain",
+	"(*core.Selection).checkRange:postcondition#8":  "same argument on the reordering return",
+	"(*core.Selection).cycleSubgroup:index#0":       "kmpos >= 1 while cycling: matchKeyword sets it to 1 (or len(groups)) before any cycle, it is decremented only when > 1 (canCycleSubgroup)",
+	"(*core.Selection).cycleSubgroup:index#1":       "same: kmpos >= 1",
+	"(*core.Selection).matchKeyword:index#2":        "kpos was wrapped into [1, len(matchersNames)] above and the loop runs while done(kpos): kpos > 0",
+	"(*readline.Shell).keywordSwitch:slice#1":       "bpos >= 0 from SelectWord, obpos is an offset inside the selected word returned by a keyword switcher (>= 0); the `cpos < bpos → continue` test above keeps bpos <= cpos",
+	"(*readline.Shell).magicSpace:slice#0":          "word is non-empty (it starts with \"!\"), so Pop returned a real selection: bpos >= 0",
+	"(*readline.Shell).viChangeTo:index#2":          "surrounds[0] / [1] are the active one-rune surround selections MarkSurround created on valid positions of this line",
+	"(*readline.Shell).viChangeTo:index#3":          "same as index#2",
+	"(*readline.Shell).viSubstitute:index#1":        "OnEmptyLine() returned false and the selection was marked at the cursor on this non-empty line: Pos() is a valid range with epos >= 1 in linewise visual mode",
+	"(*readline.Shell).viSubstitute:precondition#0": "same selection: epos >= 1, so epos-1 >= 0",
+	"(*readline.Shell).viSubstitute:slice#0":        "same selection: bpos >= 0",
+	"(*readline.Shell).viYankWholeLine:slice#0":     "the buffer is not empty (returned above) and the selection was marked at the cursor: Pos() is a valid range, bpos >= 0",
+	"(*core.Cursor).CheckCommand:class#0":           "pos == Len() and OnEmptyLine() is false, which it is not for an empty buffer: Len() >= 1, so pos-1 >= 0",
+	"(*core.Cursor).moveLineDown:class#0":           "private helper of LineMove, which runs CheckCommand right after every call (and CheckAppend when it returns)",
+	"(*core.Cursor).moveLineDown:class#1":           "same",
+	"(*core.Cursor).moveLineUp:class#0":             "same",
+	"(*core.Cursor).moveLineUp:class#1":             "same",
+	"core.CoordinatesCursor:slice#0":                "bpos is 0 or one past the position of a newline found in the line by Line.newlines()",
+	"core.CoordinatesCursor:slice#1":                "same bpos",
+	"core.closeToken:slice#0":                       "pos[count] holds the range index of the opener recorded by openToken (>= 0); idx is a range index of the line",
+	"core.closeToken:slice#2":                       "start is such a recorded index, bumped to 1 when it is 0",
+	"core.closeToken:slice#3":                       "same as slice#0",
+	"core.openToken:slice#0":                        "idx is a range index of the line, bumped to 1 when it is 0",
+}
+
+// integer fields with a lower-bound invariant (assumed at loads, proved at every store in the module)
+var nonnegFieldLB = map[string]int64{}
+
+func sortCallbackParams(p *Prog) func(fn *ssa.Function) []*ssa.Parameter {
+	// closures passed to sort.Slice / sort.SliceStable / sort.Search; Less/Swap of sort.Interface implementations
+	cb := map[*ssa.Function]bool{}
+	for _, f := range p.RepoFuncs {
+		eachInstr(f, func(in ssa.Instruction) {
+			if !isCallTo(in, "sort.Slice", "sort.SliceStable", "sort.Search") {
+				return
+			}
+			for _, a := range in.(ssa.CallInstruction).Common().Args {
+				if mc, ok := a.(*ssa.MakeClosure); ok {
+					if fn, ok := mc.Fn.(*ssa.Function); ok {
+						cb[fn] = true
+					}
+				}
+				if fn, ok := a.(*ssa.Function); ok {
+					cb[fn] = true
+				}
+			}
+		})
+	}
+	return func(fn *ssa.Function) []*ssa.Parameter {
+		var out []*ssa.Parameter
+		if cb[fn] {
+			for _, prm := range fn.Params {
+				if isIntType(prm.Type()) {
+					out = append(out, prm)
+				}
+			}
+			return out
+		}
+		if recv := fn.Signature.Recv(); recv != nil && (fn.Name() == "Less" || fn.Name() == "Swap") && len(fn.Params) == 3 {
+			// sort.Interface: the sort package only passes 0 <= i, j < Len()
+			for _, prm := range fn.Params[1:] {
+				if isIntType(prm.Type()) {
+					out = append(out, prm)
+				}
+			}
+		}
+		return out
+	}
+}
+
+func checkC01Nonneg(c *Ctx) {
+	p, r := c.P, c.R
+	r.Rule("C01.nonneg", "K9", "no index expression or slice bound of the commands (root package) and of the editing primitives (internal/core) can be negative: lower-bound proof by zone-domain abstract interpretation with contracts, state getters (Cursor.Pos, Line.Len) and integer field invariants; sites resting on an invariant outside the domain are in a reviewed table with the reason", 300)
+	chk := map[string]int64{}
+	for _, ci := range classInvariants {
+		chk[ci.tn+"."+ci.fld] = ci.lb
+	}
+	z := &zoneEngine{p: p, contracts: coreContracts(), fieldMinLen: map[string]int64{}, useGetters: true, fieldLB: nonnegFieldLB, fieldLBCheck: chk, entryNonneg: sortCallbackParams(p)}
+	seenReviewed := map[string]bool{}
+	nProved, nReviewed := 0, 0
+	for _, f := range p.RepoFuncs {
+		// scope: the commands (root package) and the editing primitives (internal/core)
+		pk := f.Pkg
+		if pk == nil && f.Parent() != nil {
+			pk = f.Parent().Pkg
+		}
+		if len(f.Blocks) == 0 || pk == nil || !(pk.Pkg.Path() == modPath || strings.HasSuffix(pk.Pkg.Path(), "/internal/core")) {
+			continue
+		}
+		z.obls = nil
+		z.analyse(f)
+		ord := map[string]int{}
+		any := false
+		for _, o := range z.obls {
+			kind := o.What
+			if i := strings.IndexAny(kind, " :"); i > 0 && !o.IsBound {
+				kind = kind[:i]
+			}
+			key := fmt.Sprintf("%s:%s#%d", fnName(f), kind, ord[kind])
+			ord[kind]++
+			ok := o.OK
+			if o.IsBound {
+				ok = o.LowerOK
+			}
+			any = true
+			if !ok && strings.HasPrefix(o.What, "class invariant ") {
+				// a transiently out-of-range store is fine when a normaliser of the
+				// object runs before the function returns (directly or deferred)
+				for _, ci := range classInvariants {
+					if !strings.Contains(o.What, ci.tn+"."+ci.fld) {
+						continue
+					}
+					if ci.deferredBefore(f, o.In) {
+						ok = true
+					} else if good, _ := mustPassBefore(f, o.In, isReturn, ci.isNormaliser); good {
+						ok = true
+					}
+				}
+			}
+			switch {
+			case ok:
+				nProved++
+				r.OK("C01.nonneg", key, p.IPos(o.In), "proved")
+			case reviewedNonneg[key] != "":
+				nReviewed++
+				seenReviewed[key] = true
+				r.OK("C01.nonneg", key, p.IPos(o.In), "reviewed: "+reviewedNonneg[key])
+			default:
+				r.Bad("C01.nonneg", key, p.IPos(o.In), "cannot show that "+describeObl(o)+" is never negative ("+o.Detail+"): a negative index or slice bound panics and takes the application down")
+			}
+		}
+		if any {
+			r.Fn(fnName(f))
+		}
+	}
+	for k := range reviewedNonneg {
+		if !seenReviewed[k] {
+			r.Notes = append(r.Notes, "reviewed non-negativity entry no longer matches a site that needs it: "+k)
+		}
+	}
+	r.Extra["nonneg_proved"] = nProved
+	r.Extra["nonneg_reviewed"] = nReviewed
+}
+
+func describeObl(o ZObl) string {
+	if o.IsBound {
+		return "the " + o.What + " `" + o.In.String() + "`"
+	}
+	return o.What
 }
